@@ -377,19 +377,19 @@ package impl
 //@   requires ctx != nil && validColl(input)
 //@   requires forall k int :: 0 <= k && k < len(args) ==> args[k] != nil
 //@   ensures len(input) == 0 && 0 <= len(args) && len(args) <= 1 ==> err == nil && len(res) == 0
-//@   assigns nothing
+//@   assigns ctx.LastResult, ctx.BeforeLastResult
 //
 //@ func Matches(ctx, input, args) (res, err)
 //@   requires ctx != nil && validColl(input)
 //@   requires forall k int :: 0 <= k && k < len(args) ==> args[k] != nil
 //@   ensures len(input) == 0 && len(args) == 1 ==> err == nil && len(res) == 0
-//@   assigns nothing
+//@   assigns ctx.LastResult, ctx.BeforeLastResult
 //
 //@ func Log(ctx, input, args) (res, err)
 //@   requires ctx != nil && validColl(input)
 //@   requires forall k int :: 0 <= k && k < len(args) ==> args[k] != nil
 //@   ensures len(input) == 0 && len(args) == 1 ==> err == nil && len(res) == 0
-//@   assigns nothing
+//@   assigns ctx.LastResult, ctx.BeforeLastResult
 //
 //@ func Extension(ctx, input, args) (res, err)
 //@   requires ctx != nil && validColl(input)
@@ -399,13 +399,13 @@ package impl
 //@   ensures len(input) == 0 && len(args) == 1 && uok ==> err == nil && len(res) == 0
 //@   loop 1 (i):
 //@     invariant i == 0 ==> len(result) == 0
-//@   assigns nothing
+//@   assigns ctx.LastResult, ctx.BeforeLastResult
 //
 //@ func ReplaceMatches(ctx, input, args) (res, err)
 //@   requires ctx != nil && validColl(input)
 //@   requires forall k int :: 0 <= k && k < len(args) ==> args[k] != nil
 //@   ensures len(input) == 0 && len(args) == 2 ==> err == nil && len(res) == 0
-//@   assigns nothing
+//@   assigns ctx.LastResult, ctx.BeforeLastResult
 //
 //
 // ---- C14: string functions on characters ----------------------------------------------------
@@ -671,3 +671,22 @@ package impl
 //@   ensures len(input) == 1 && len(args) <= 1 ==> err == nil && collTV(res) == ite(toE(7, input, args) == nil && len(toS(7, input, args)) > 0, TV_T, TV_F)
 //@   assigns nothing
 //
+//
+// ---- C04: the clock functions are functions of the context's one instant --------------------
+// (they panic only if package time cannot re-parse its own rendering of that instant, e.g.
+// a year outside 0..9999)
+//@ func Now(ctx, input, args) (res, err)
+//@   requires ctx != nil
+//@   panics-when !parseOkK(5, fmtS(ctx.Now, "2006-01-02T15:04:05.000Z07:00"))
+//@   ensures err == nil && len(res) == 1 && res[0] == parseValK(5, fmtS(ctx.Now, "2006-01-02T15:04:05.000Z07:00"))
+//@   assigns nothing
+//@ func Today(ctx, input, args) (res, err)
+//@   requires ctx != nil
+//@   panics-when !parseOkK(4, fmtS(ctx.Now, "2006-01-02"))
+//@   ensures err == nil && len(res) == 1 && res[0] == parseValK(4, fmtS(ctx.Now, "2006-01-02"))
+//@   assigns nothing
+//@ func TimeOfDay(ctx, input, args) (res, err)
+//@   requires ctx != nil
+//@   panics-when !parseOkK(6, fmtS(ctx.Now, "15:04:05.000"))
+//@   ensures err == nil && len(res) == 1 && res[0] == parseValK(6, fmtS(ctx.Now, "15:04:05.000"))
+//@   assigns nothing
